@@ -201,6 +201,12 @@ ObsOK == obs = ObsOf(Eff)
 RS == INSTANCE RefMapSeq WITH refs <- Eff
 Refines == RS!SSpec
 ContractF == RS!Contract
+\* The same refinement, cheaper to check: last' names the call that was made, so only that
+\* disjunct of RS!SNext has to be evaluated (used for the larger universes).
+RefinesStep ==
+    LET c == last'.c IN
+    IF RS!IsCall(c) THEN RS!Do(c) ELSE (c.op \in {"PackRefs", "GitPack", "Reopen"} /\ RS!Invisible(c.op, c.v))
+RefinesFast == [][RefinesStep]_fvars
 
 \* the state graph dumped for replay does not distinguish states by the call that led to them;
 \* no action reads `last`, and the step properties only read last', so hiding it loses nothing
